@@ -1369,6 +1369,12 @@ func (vc *FnVC) specModSet(c *ssa.CallCommon) (modSet, bool) {
 					// mapof(p.f): the contents of the map held in field f of parameter p
 					sel, ok := x.Args[0].(*ESel)
 					var mt *types.Map
+					if pid, isID := x.Args[0].(*EIdent); isID {
+						// mapof(m): the contents of a map parameter
+						if t := ptype(pid.Name); t != nil {
+							mt, _ = t.Underlying().(*types.Map)
+						}
+					}
 					if ok {
 						if pid, ok := sel.X.(*EIdent); ok {
 							if t := ptype(pid.Name); t != nil {
